@@ -194,7 +194,7 @@ def specVerdict (st : DState) (real : List String) : Array SpecIt × Option Stri
     let modes := (st.bmodes.map List.reverse).reverse
     let sup := allSupported modes
     (sp, some (if sup && r == "ok" then "S ok"
-               else if !sup && (r == "syntax" || r == "unsupported") then "S ok"
+               else if !sup && (r == "err" || r == "syntax" || r == "unsupported") then "S ok"
                else if sup then s!"S FAIL a configuration made only of supported constructs was rejected ({r})"
                else "S FAIL a configuration with an unsupported construct or a syntax error was built without error"))
   | ["findall", m], "findall" :: items =>
@@ -1017,8 +1017,9 @@ def step (st : DState) (line : String) : DState × Option String :=
     let modes := (st.bmodes.map List.reverse).reverse
     let res := match build modes with
       | .ok => "build ok"
-      | .syntaxError => "build syntax"
-      | .unsupported => "build unsupported"
+      -- (which of the two error kinds is reported is not part of the property: compared as "error")
+      | .syntaxError => "build err"
+      | .unsupported => "build err"
     (st, some res)
   | "jser" :: r =>
     match parseCfg r with
